@@ -151,6 +151,10 @@ func oracle(c Case) vkit.Outcome {
 	var out vkit.Outcome
 	out.Key = c.Mode + "|" + c.Program.Body + fmt.Sprint(c.Configs, c.Alloc)
 	base := run(c.Program, c.Ego, c.Mode, baseline)
+	if base.Runaway {
+		out.Inconclusive = "the baseline run did not end within the harness bound"
+		return out
+	}
 	if base.GoPanic != "" {
 		out.Fail = &vkit.Failure{Sig: "go-panic-at-baseline", Observed: base.GoPanic + "\n" + base.Stack, Expected: "no Go panic"}
 		return out
@@ -171,6 +175,10 @@ func oracle(c Case) vkit.Outcome {
 	for _, cfg := range c.Configs {
 		out.Labels = append(out.Labels, fmt.Sprintf("cfg o%d", cfg.Opt))
 		o := run(c.Program, c.Ego, c.Mode, cfg)
+		if o.Runaway {
+			out.Inconclusive = "a configured run did not end within the harness bound"
+			return out
+		}
 		if sig, obs := diff(base, o); sig != "" {
 			out.Fail = &vkit.Failure{
 				Sig:      sig + fmt.Sprintf(" [%s %s]", c.Mode, cfgClass(cfg)),
